@@ -137,8 +137,10 @@ PROPS = {
         explore=ct.explore_c04,
     ),
     "C12": dict(
-        modules=["JPV.Props.C12", "JPV.Props.C08", "JPV.Props.C07"],
-        theorems=["JPV.Props.C12", "JPV.Props.C12_same_nodes", "JPV.Props.C12_needs_range", "JPV.Props.C12_partial", "JPV.Props.C12_filter_partial", "JPV.Props.C12_fixpoint", "JPV.Props.C12_quoting", "JPV.Props.C08_canonical",
+        modules=["JPV.Props.C12", "JPV.Props.C12Float", "JPV.Props.C08", "JPV.Props.C07"],
+        theorems=["JPV.Props.C12_unconditional", "JPV.Props.strFloat_round_trips", "JPV.Props.strFloat_round_trips_inf", "JPV.Props.floats_of_compile_form",
+                  "JPV.Props.float_repr_round_trip", "JPV.Props.floatOfText_isDouble", "JPV.Props.repr_round_trips_false", "JPV.Props.repr_1e16_reads_back_as_int",
+                  "JPV.Props.C12", "JPV.Props.C12_same_nodes", "JPV.Props.C12_needs_range", "JPV.Props.C12_partial", "JPV.Props.C12_filter_partial", "JPV.Props.C12_fixpoint", "JPV.Props.C12_quoting", "JPV.Props.C08_canonical",
                   "JPV.Props.C07_slice"],
         tables=[T + "precedences_model", T + "precedence_consts", T + "binary_operators_model"],
         explore=ct.explore_c12,
